@@ -59,6 +59,10 @@ impl Check for C03 {
     }
 
     fn generate(&self, g: &mut Xo, tier: Tier, run: u64) -> VmSc {
+        if run >= 100 && run < 100 + vmgen::operand_cells() as u64 {
+            // the enumerated operand grid: every int / float instruction x every ordered pair of boundary literals
+            return vmgen::gen_operand_cell((run - 100) as usize);
+        }
         if run == 7 {
             // one very long evaluation per invocation (millions of steps = a sizeable fraction of a second)
             return vmgen::gen_very_long(g, if tier == Tier::Quick { 6_000_000 } else { 20_000_000 });
